@@ -136,6 +136,25 @@ def near_pool(rng, n):
 
 
 NEAR_HISTORIES = ([0, 1, 0, 2, 3, 4, 1, 2, 0], [1, 0, 2, 0, 4, 3, 1])
+def perm_pool(rng, n, ring=False, nperm=3):
+    """PERMUTATIONS of one tensor list: a chain (or ring) of n matrices with strongly graded bond sizes, and the same
+    terms / output / sizes with the tensors listed in other orders (a positional path for one ordering is wrong for
+    another by many orders of magnitude)"""
+    m = n if ring else n + 1
+    labels = ["x%02d" % i for i in range(m)]
+    terms = [[labels[i], labels[(i + 1) % m]] for i in range(n)]
+    output = [] if ring else [labels[0], labels[n]]
+    size = {l: rng.choice((2, 3, 5, 30, 50, 70)) for l in labels}
+    pool = [{"inputs": [list(t) for t in terms], "output": list(output), "size_dict": dict(size)}]
+    for _ in range(nperm):
+        order = list(range(n))
+        while order == list(range(n)):
+            rng.shuffle(order)
+        pool.append({"inputs": [list(terms[i]) for i in order], "output": list(output), "size_dict": dict(size)})
+    return pool
+
+
+PERM_HISTORIES = ([0, 1, 0, 2, 3, 1], [2, 0, 1, 3, 0])
 SWEEP_HISTORY = [0, 1, 2, 0, 1]      # d=2, 8, 3, 2, 8: the cheaper contraction always first
 
 
@@ -441,6 +460,30 @@ def seq_jobs(ctx, rng):
     for ow in (False, True, "improved"):
         add_sweep("reusable-hyper", {"max_repeats": 4, "overwrite": ow, "methods": ["greedy", "random-greedy"]}, 12, "tree")
         add_sweep("reusable-rg", {"max_repeats": 4, "overwrite": ow}, 12, "tree")
+    # permutations of one tensor list (same terms / output / sizes, tensors listed in another order): beyond belonging
+    # to its query, the answer must cost what a FRESH optimizer of the same configuration gives for that query alone
+    def add_perm(target, opts, n, api, det, ring=False):
+        pool = perm_pool(rng, n, ring=ring)
+        for h in PERM_HISTORIES:
+            jobs.append({"kind": "seq", "target": target, "opts": opts, "queries": pool, "history": list(h), "api": api,
+                         "solo": target.startswith(("preset:", "instance:")),
+                         "fresh_check": {"deterministic": det, "factor": 1000},
+                         "tag": "perm:%s%s:%s" % (target, "(cache=%s)" % opts["cache"] if "cache" in opts else "", api)})
+    for api in ("tree", "path"):
+        add_perm("reusable-rg", {"max_repeats": 8, "seed": 0}, 16, api, True)
+        add_perm("reusable-rg", {"max_repeats": 8, "seed": 3, "overwrite": "improved"}, 12, api, True, ring=True)
+        add_perm("reusable-hyper", {"max_repeats": 4, "methods": ["greedy"]}, 16, api, False)
+        add_perm("reusable-hyper", {"max_repeats": 4, "methods": ["greedy"], "overwrite": True}, 12, api, False, ring=True)
+        for cls in ("auto", "autohq"):
+            for cache in (True, False):
+                add_perm(cls, {"cache": cache, "optimal_cutoff": 0, "max_repeats": 4, "methods": ["greedy"]}, 12, api, False)
+    for api in ("tree", "path", "tree_canon", "path_canon"):
+        add_perm("preset:auto", {}, 16, api, False)              # 16-matrix chain: hyper branch of 'auto'
+        add_perm("preset:greedy", {}, 10, api, True)
+    add_perm("preset:auto-hq", {}, 16, "tree", False)
+    add_perm("preset:auto-hq", {}, 26, "path", False, ring=True)
+    add_perm("preset:optimal", {}, 8, "path", True)
+    add_perm("instance:auto_optimize", {}, 16, "via", False)
     # near-identical contractions (X, X + trailing scalar, scalar + X, permuted index orders, relabelled) through
     # the tree AND the path interfaces; explicit hash_method='b' instances are not judged here (C14 hash-b-collision)
     def add_near(target, opts, n, api):
@@ -767,9 +810,42 @@ def run(ctx):
                  nontrivial=switches >= 2 and len(labels) >= 8,
                  sample={"target": job["target"], "opts": job["opts"], "programs": job["programs"],
                          "schedule": [i for i, _ in r["trace"]], "results": r["results"]} if ji % 97 == 0 else None)
+    # ---- the key function: Threads.key_a vs reusable.hash_contraction(method 'a') on pairs of queries ------------
+    try:
+        from cotengra.reusable import hash_contraction as real_hash
+    except Exception:       # noqa: BLE001
+        real_hash = None
+    key_pools = [perm_pool(rng, n, ring=r) for n, r in ((5, False), (6, True), (4, False))] + \
+        [near_pool(rng, 5), sweep_pool(rng, 5)]
+    nkey = 0
+    for pi, pool in enumerate(key_pools if real_hash else []):
+        labels = sorted({ix for q in pool for t in q["inputs"] for ix in t} | {ix for q in pool for ix in q["size_dict"]})
+        rank = {l: i for i, l in enumerate(labels)}
+
+        def lit(q):
+            return "%s %s %s" % (coq([[rank[ix] for ix in t] for t in q["inputs"]]) if q["inputs"] else "[]",
+                                 coq([rank[ix] for ix in q["output"]]) if q["output"] else "(@nil nat)",
+                                 coq([(rank[k], v) for k, v in q["size_dict"].items()]))
+        pairs = [(a, b) for a in range(len(pool)) for b in range(a, len(pool))]
+        model = "[" + "; ".join("key_a_eqb %s %s" % (lit(pool[a]), lit(pool[b])) for a, b in pairs) + "]"
+
+        def rh(q):
+            return real_hash(tuple(map(tuple, q["inputs"])), tuple(q["output"]), dict(q["size_dict"]), "a")
+        real = [rh(pool[a]) == rh(pool[b]) for a, b in pairs]
+        cases.append(("key_a:pool%d" % pi, model, coq(real)))
+        owners.append((-2 - pi, "key_a"))
+        nkey += len(pairs)
+        ctx.count("key_a-pairs", len(pairs))
+        ctx.count("key_a-equal-pairs", sum(real))
     failing = ctx.coq_cases("c16", ["Base", "Threads"], cases, chunk=60, timeout=900)
     failed = {}
     for idx, label, val in failing:
+        if idx < len(owners) and owners[idx][1] == "key_a":
+            ctx.fail("Threads.key_a and reusable.hash_contraction(method 'a') disagree on which queries share a cache key "
+                     "(theorem C16_key_a_positional is about key_a)",
+                     {"correspondence": "key_a_eqb vs equality of hash_contraction digests on all pairs of a pool",
+                      "pool": key_pools[-2 - owners[idx][0]], "model_value": val}, found_input=False)
+            continue
         if idx < len(owners):
             failed.setdefault(owners[idx][0], {})[owners[idx][1]] = val
         else:
